@@ -50,6 +50,9 @@ struct Driver {
 
 int main(int argc, char** argv, Driver& d);
 
+// a short note about what the worker is doing right now (e.g. the input under test); shown in crash reports
+void note(const std::string& s);
+
 // helper: mixed-radix decoding of a scenario index
 struct Mixed {
   std::vector<size_t> dims;
